@@ -106,7 +106,8 @@ DefaultCalc ==
    rules |-> <<>>,        \* registered custom rules in registration order (C18)
    fams  |-> <<>>,        \* user-defined unit families (C18)
    alias |-> <<>>,        \* configured currency alias table: spelling -> code (handed in by the driver)
-   codes |-> {}]          \* configured currency codes
+   codes |-> {},          \* configured currency codes
+   zones |-> <<>>]        \* configured zone table: name -> offset in minutes (handed in by the driver)
 
 \* macro-step of the evaluation loop: one slot per line, in order; an erroneous line does not stop it
 RECURSIVE RunLines(_, _, _)
